@@ -1,3 +1,4 @@
+import MiniconfVerif.Lemmas.GenTieMqtt
 import MiniconfVerif.Lemmas.MqttEpoch
 import MiniconfVerif.Gen.Consts
 
@@ -121,5 +122,24 @@ example : ((Mqtt.run exOps "p".toList Client.init 0
     [exObs 0, exObs 0, exObs 0, exObs 2000, exObs 2000, exObs 2000]).2.2.map (·.1)) =
     [[], [.alive], [.sub], [], [], [.pub "p/settings/foo".toList (.text "1".toList) .ok none]] := by
   decide +kernel
+
+open MiniconfVerif.Gen MiniconfVerif.Gen.Core MiniconfVerif.Gen.Mqtt MiniconfVerif.GenTie MiniconfVerif.Mqtt in
+/-- **`MqttClient::update` as translated from miniconf_mqtt/src/lib.rs** (`Gen/Mqtt.lean`: `Reset` when the link is down,
+the `match self.state.state()` with the transition table of the `statemachine!` invocation, then `poll()`; the link, the
+two start-up publications and the client's sub-procedures `dump(None)` / `iter_list` / `iter_dump` / `poll` are the
+environment `UEnv`) **is the model's `step`** — on which the start-up sequence theorems of this file are proved — when the
+sub-procedures are the model's: it never panics by itself (every `process_event(..).unwrap()` has its transition), takes
+the same protocol state, pending request and settings, puts the same messages on the wire in the same order, arms the dump
+time-out exactly when the `start_timeout` action runs (`Subscribe → Wait`), leaves `Wait` exactly when the guard
+`timed_out` holds, and reports `poll`'s result as "settings changed". -/
+theorem source_update_is_model {σ : Type} (ops : SettingsOps σ) (pfx : Str) (c : Client) (s : σ) (o : Obs) :
+    ∃ cl r, update ({ pubGet := .ok (), mpTry := .error "", mpRoot := fun _ => none, setRes := .ok 0,
+                      guard := guardOf c.timeout o.now } : Env Unit Unit Pending)
+        (uenvOf ops pfx c.timeout o)
+        ({ st := stToGen c.st, pending := c.pending, ext := (s, []) } : UCl σ) = .val (cl, r) ∧
+      let m := step ops pfx c s o
+      m.1.st = stOfGen cl.st ∧ m.1.pending = cl.pending ∧ m.1.timeout = tmoOf c.timeout o.now cl.log ∧
+      m.2.1 = cl.ext.1 ∧ m.2.2.1 = cl.ext.2 ∧ boolOfRet m.2.2.2 = r :=
+  update_tie ops pfx c s o
 
 end MiniconfVerif.C13
